@@ -70,7 +70,8 @@ func init() {
 		QuickRuns: 6000, QuickBudgetS: 45, ThoroughRuns: 400000, ThoroughBudgetS: 600,
 		Rule: "one run = one tape-drawn history on one node: clients hand fresh or re-submitted (pooled, dropped, already committed) signed transfers to TransactionManager.Add or straight to TransactionPool.Add, " +
 			"with timestamps on the fake clock's now, now±th, now±th±1, now±th/2, now±2th, values up to the sender's whole balance and step limits around the minimum; the fake clock advances by 1us..2th+1; " +
-			"a proposer builds the world context from the last finalised world snapshot and calls Candidate (with and without byte/count caps); the proposal is finalised, abandoned, or a foreign valid block is finalised instead " +
+			"transactions optionally carry 90/300/700 bytes of message data so that sizes differ; funding chains are submitted in which a rich account pays a (nearly) empty one (the funding transfer optionally carrying 200/600 bytes of data) and every recipient spends what it received; " +
+			"a proposer builds the world context from the last finalised world snapshot and calls Candidate with an unlimited block byte budget or one drawn to end inside the pool (sizes of the first k pooled transactions -1/+0/+1/+half/+all-but-one byte of the next) and with count caps 1/2/4; the proposal is finalised, abandoned, or a foreign valid block is finalised instead " +
 			"(RemoveTxs + RemoveOldTxByBlockTS as service.manager.Finalize does); the locator flusher advances only at scheduled points. Run parameters: threshold 1/2/5/50 ms, step price 0/1/10, default step cost 0/100/1000, pool size 4..64, 3-4 accounts with balances from 0 to ample. " +
 			"Non-trivial = at least one proposal selected at least one transaction while the pool also held at least one transaction that must not be proposed (expired, future, committed, step limit too low, unaffordable at once or after the earlier selected ones); " +
 			"distinct = distinct event-log hash.",
@@ -78,6 +79,7 @@ func init() {
 			"pool_had:expired", "pool_had:future", "pool_had:committed", "pool_had:unaffordable-after-earlier-selected", "pool_had:unaffordable-from-the-start", "pool_had:step-limit-too-low",
 			"pool_had:ts==bts-th", "pool_had:ts==bts+th+1", "selected:ts==bts+th", "selected:ts==bts-th+1",
 			"committed_tx_entered_pool", "proposal_with_several_txs", "block_finalised:own", "block_finalised:foreign",
+			"byte_limit_hit_inside_pool", "tx_skipped_for_size", "count_limit_hit_inside_pool", "recipient_spends_received_funds", "funding_chain_submitted",
 		},
 		EssentialProbes: []string{"proposal_abandoned", "client_resubmits_committed_tx"},
 		Assumptions: []string{
